@@ -2,6 +2,7 @@
   C08 — FOR/ROF blocks assemble exactly like their manual unrolling (property theorems).
 -/
 import Gmars.Spec.Program
+import Gmars.Proofs.ForUnroll
 
 namespace Gmars.Props.C08
 open Gmars Gmars.Spec
@@ -24,6 +25,50 @@ theorem unroll_for_free (fuel : Nat) (items before : List Item) (k : Nat) (h : f
       have hrest : forFree rest := fun x hx => h x (by simp [hx])
       have := ih f (before ++ [it]) hrest (by simpa using hf)
       cases it <;> simp_all [unrollAux]
+
+open ForPass in
+/-- `expand_pass` — one pass of the FOR expander performs exactly the manual unrolling of the
+    FIRST outermost block and streams everything else through: lines before the block unchanged,
+    the block replaced by `count` copies of its body with the counter replaced by 1 … count (inner
+    blocks copied verbatim for later passes, block labels renamed and emitted once), the rest of
+    the stream unchanged up to its terminator. -/
+theorem expand_pass (e : List Token → SymTab → EvalRes) (syms : SymTab)
+    (pre : List Line) (b : Block) (q : List Token) (z : Token) (rest : List Token) (n : Int)
+    (hpre : ∀ l ∈ pre, l.WF) (hpass : ∀ l ∈ pre, PassLine l.toks) (hb : b.WF)
+    (hq : ∀ x ∈ q, x.isTerm = false) (hz : z.isTerm = true)
+    (hev : e (exprToks b.count) syms = .ok n) :
+    forExpandWith e (flat pre ++ b.flat ++ q ++ z :: rest) syms =
+      .ok (some (flat pre ++ b.unrolled n ++ q ++ [endTok z]), false) :=
+  ForPass.expand_pass e syms pre b q z rest n hpre hpass hb hq hz hev
+
+open ForPass in
+/-- `for_unroll_partial` — a program whose blocks need k ≤ 12 expansion passes leaves the pass
+    loop of CompileWarrior as the token list of its complete manual unrolling -/
+theorem for_unroll_partial {k : Nat} {ts out : List Token} (h : Unrolls k ts out)
+    (fuel depth : Nat) (hk : depth + k ≤ 12) (hf : k < fuel) :
+    forLoop fuel depth ts = .ok out :=
+  ForPass.for_unroll_partial h fuel depth hk hf
+
+open ForPass in
+/-- the 13th expansion is refused ("for loop depth exceeded"): finding F12 as a theorem -/
+theorem thirteenth_pass_refused {k : Nat} {ts mid ts' : List Token} (h : Steps k ts mid)
+    (hlast : UnrollStep mid ts') (fuel depth : Nat) (hk : depth + k = 12) (hf : k < fuel) :
+    forLoop fuel depth ts = .error .err :=
+  ForPass.for_unroll_too_deep h hlast fuel depth hk hf
+
+open ForPass in
+/-- `for_unroll` for structured programs (sequential and nested blocks, counts literal or an
+    outer counter, label-free blocks) needing at most 12 passes: the pass loop yields the tokens of
+    the fully unrolled program -/
+theorem for_unroll_full (p : Prog) (ls : List Line) (k : Nat) (h : FullUnroll p ls k) (hk : k ≤ 12) :
+    forLoop 14 0 (flat p.render ++ [eofTok]) = .ok (flat ls ++ [eofTok]) :=
+  ForPass.for_unroll_full p ls k h hk
+
+/-
+  The full statement of the property (any number of expansions, "up to 40") is false of the
+  code: `thirteenth_pass_refused` is the proof, the `for` domain shows it on the implementation
+  (KNOWN_FINDINGS F12); block labels referenced from outside the block are F13.
+-/
 
 /-- a zero-count block contributes nothing; a block with count n contributes n copies of its
     body (checked on a nested example by evaluation: 2 × 2 copies, then a zero-count block,
